@@ -1,4 +1,5 @@
 """MW rules (C12): verdict x hook table decided by path enumeration of one loop iteration."""
+import re
 from mirq.prov import subterms, term_str, strip_wrap, strip_clone
 from mirq.report import short, AnchorMissing
 from rules.pipe import _pipe, _loop_of
@@ -332,14 +333,32 @@ def mw5_hooks_on_every_action(ctx, rep):
         if raw[0] == "unop" and raw[1] == "Not":
             raw = raw[2]
             neg = True
-        if raw[0] != "call" or raw[2] != "std::vec::Vec::is_empty" or raw[1][0] != n.body.path:
+        true_means_empty = None
+        if raw[0] == "call" and raw[2] == "std::vec::Vec::is_empty" and raw[1][0] == n.body.path:
+            call = raw
+            true_means_empty = True
+        elif raw[0] == "binop" and raw[1] in ("Gt", "Ne", "Ge", "Eq", "Lt", "Le"):
+            # the same gate spelled `len() > 0`, `len() != 0`, `len() >= 1`, `len() == 0`, `len() < 1`, `0 < len()` ...
+            a, b_ = raw[2], raw[3]
+            op = raw[1]
+            if a[0] == "const" and b_[0] == "call":
+                a, b_ = b_, a
+                op = {"Gt": "Lt", "Lt": "Gt", "Ge": "Le", "Le": "Ge"}.get(op, op)
+            m = re.match(r"\D*(\d+)", str(b_[1])) if b_[0] == "const" else None
+            if a[0] == "call" and a[2] == "std::vec::Vec::len" and a[1][0] == n.body.path and m:
+                c = int(m.group(1))
+                call = a
+                true_means_empty = {("Gt", 0): False, ("Ne", 0): False, ("Ge", 1): False, ("Eq", 0): True, ("Lt", 1): True, ("Le", 0): True}.get((op, c))
+        if true_means_empty is None:
             continue
-        at = ctx.base_term(bp.arg_term(raw[1][1], 0))
+        at = ctx.base_term(bp.arg_term(call[1][1], 0))
         if not (at[0] == "field" and at[2] == A.f_middlewares):
             continue
+        if neg:
+            true_means_empty = not true_means_empty
         zero = [bb for v, bb in t["targets"] if str(v) == "0"]
         nonzero = t["otherwise"]
-        empty_tgt = (zero[0] if zero else nonzero) if neg else nonzero
+        empty_tgt = nonzero if true_means_empty else (zero[0] if zero else nonzero)
         empty_edges.append((k, (k[0], n.body.path, empty_tgt)))
     te, fe = n2_flag_edges(ctx)
     n = 0
